@@ -696,15 +696,23 @@ pub fn refresh(
 ) -> Result<(), Error> {
     verify(msk, usk)?;
 
-    let usk_id = take(&mut usk.id);
-    let new_id = msk.tsk.refresh_id(rng, usk_id)?;
+    // The USK is only modified once no more error can occur.
+    let new_id = msk.tsk.refresh_id(rng, usk.id.clone())?;
 
-    let usk_rights = take(&mut usk.secrets);
+    let usk_rights = usk.secrets.clone();
     let new_rights = if keep_old_rights {
         refresh_coordinate_keys(msk, usk_rights)
     } else {
-        msk.get_latest_right_sk(usk_rights.into_keys())
-            .collect::<Result<RevisionVec<Right, RightSecretKey>, Error>>()?
+        // Rights that do not belong to the MSK anymore are removed, as they
+        // are when old secrets are kept.
+        usk_rights
+            .into_keys()
+            .filter_map(|r| {
+                msk.secrets
+                    .get_latest(&r)
+                    .map(|(_, key)| (r, key.clone()))
+            })
+            .collect::<RevisionVec<Right, RightSecretKey>>()
     };
 
     let signature = sign(msk, &new_id, &new_rights)?;
